@@ -18,3 +18,4 @@ def run(ctx):
     SM.fail_unrecognised(ctx, "C15.R1", M)
     SM.c15_pairing(ctx, M)
     ST.head_no_writer(ctx, "C15.R4")
+    ST.negotiation_input(ctx, "C15.R3")
